@@ -123,6 +123,10 @@ func (r *scanner) rangeWithLimit(ctx context.Context, start []byte, end []byte, 
 	if err != nil {
 		return nil, err
 	}
+	if err = r.checkCompactRace(ctx, revision, false); err != nil {
+		// compacted above revision while the range was being read, see scan
+		return nil, err
+	}
 	return receiver.result, nil
 }
 
@@ -302,6 +306,16 @@ func (r *scanner) scan(ctx context.Context, start []byte, end []byte, revision u
 	for _, e := range errList {
 		if e != nil {
 			return 0, e
+		}
+	}
+
+	if !compact {
+		// the workers open their iterators after the check above, and not every engine reads the snapshot of tso through
+		// them. A compaction records its revision before it deletes anything: if the compact revision is above revision
+		// by now, versions this read needed may have been deleted under it, and it must be refused like a read that
+		// arrives after the compaction
+		if err = r.checkCompactRace(ctx, revision, false); err != nil {
+			return 0, err
 		}
 	}
 
